@@ -1,7 +1,16 @@
 #!/bin/bash
-# usage: tools/import_seed.sh C01 a <short-name>   -- copies /tmp/seed-C01-out/{a.diff,demo_a.py,meta_a.json} to seeded/C01-<name>/
+# usage: [SEED_ROUND=4] tools/import_seed.sh C01 a <short-name>
+#   copies /tmp/seed<round>-C01-out/{a.diff,demo_a.py,meta_a.json} to seeded/C01-<name>/ and stamps the round in meta.json
 id=$1; x=$2; name=$3
-src=${SEED_SRC:-/tmp/seed3-$id-out}
+rnd=${SEED_ROUND:-4}
+src=${SEED_SRC:-/tmp/seed$rnd-$id-out}
 dst=/verif/seeded/$id-$name
 mkdir -p $dst
-cp $src/$x.diff $dst/patch.diff && cp $src/demo_$x.py $dst/demo.py && cp $src/meta_$x.json $dst/meta.json && echo imported $dst
+cp $src/$x.diff $dst/patch.diff && cp $src/demo_$x.py $dst/demo.py && cp $src/meta_$x.json $dst/meta.json || exit 1
+/venv/bin/python - "$dst/meta.json" "$rnd" <<'PY'
+import json, sys
+p, rnd = sys.argv[1], int(sys.argv[2])
+m = json.load(open(p)); m["round"] = rnd; m.setdefault("checks", [m["property"]])
+json.dump(m, open(p, "w"), indent=1)
+PY
+echo imported $dst
